@@ -20,7 +20,22 @@ Cases ==
   \cup { C("MatchText", <<35,110,110,32,61,32,58,97,98>>, Fn(NameKeys, S, CN), [k \in {":ab"} |-> VX], Pk(NameKeys, S) \cup {ValueKeys[1]}) : S \in Sub(NameKeys) }   \* #nn = :ab
   \cup { C("ApplyText", <<83,69,84,32,98,32,61,32,58,97,98>>, <<>>, Fn(ValueKeys, S, CV), Pk(ValueKeys, S)) : S \in Sub(ValueKeys) }                    \* SET b = :ab
   \cup { C("ApplyText", <<83,69,84,32,35,110,110,32,61,32,58,97,98>>, Fn(NameKeys, S, CN), [k \in {":ab"} |-> VX], Pk(NameKeys, S) \cup {ValueKeys[1]}) : S \in Sub(NameKeys) }
-ASSUME \A c \in Cases : PrintT(ToJson(c))
+\* malformed placeholder keys: "#" / ":" followed by something that is not only letters, digits and underscores.  The key is written
+\* into the expression as it is, so that "it occurs in the text" cannot be what gets it rejected
+BadNames == << <<"#n[0]", <<35,110,91,48,93>>>>, <<"#n^", <<35,110,94>>>>, <<"#n\\", <<35,110,92>>>>, <<"#n`", <<35,110,96>>>>, <<"#n-1", <<35,110,45,49>>>>,
+              <<"#n.x", <<35,110,46,120>>>>, <<"#n x", <<35,110,32,120>>>>, <<"#n]", <<35,110,93>>>>, <<"#", <<35>>>> >>
+BadValues == << <<":ab[0]", <<58,97,98,91,48,93>>>>, <<":ab^", <<58,97,98,94>>>>, <<":ab\\", <<58,97,98,92>>>>, <<":ab`", <<58,97,98,96>>>>, <<":ab-1", <<58,97,98,45,49>>>>,
+               <<":ab.x", <<58,97,98,46,120>>>>, <<":ab x", <<58,97,98,32,120>>>>, <<":ab]", <<58,97,98,93>>>>, <<":", <<58>>>> >>
+BadName(i) == BadNames[i]
+BadValue(i) == BadValues[i]
+Malformed ==
+     { [op |-> "MatchText", text |-> BadName(i)[2] \o <<32,61,32,58,97,98>>, item |-> Item0, names |-> [k \in {BadName(i)[1]} |-> "a"], values |-> [k \in {":ab"} |-> VX],
+        strict |-> TRUE, pk |-> <<BadName(i), ValueKeys[1]>>] : i \in DOMAIN BadNames }
+  \cup { [op |-> "MatchText", text |-> <<97,32,61,32>> \o BadValue(i)[2], item |-> Item0, names |-> <<>>, values |-> [k \in {BadValue(i)[1]} |-> VX],
+        strict |-> TRUE, pk |-> <<BadValue(i)>>] : i \in DOMAIN BadValues }
+  \cup { [op |-> "ApplyText", text |-> <<83,69,84,32,98,32,61,32>> \o BadValue(i)[2], item |-> Item0, names |-> <<>>, values |-> [k \in {BadValue(i)[1]} |-> VX],
+        strict |-> TRUE, pk |-> <<BadValue(i)>>] : i \in DOMAIN BadValues }
+ASSUME \A c \in Cases \cup Malformed : PrintT(ToJson(c))
 VARIABLE dummy
 Init == dummy = 0
 Next == UNCHANGED dummy
